@@ -165,10 +165,6 @@ Section Spec.
     | ERe b => negb (strict c) && negb b && re_search (str_atom a)
     | EVal _ => false
     end.
-  (* the TypeError that is left: a bytes pattern applied to the text of a number (loose mode) *)
-  Definition num_raises : bool :=
-    match it with ERe true => negb (strict c) | _ => false end.
-
   Definition atom_match (a : atom) : bool :=
     match a with
     | ANone => match it with EAtom ANone => true | _ => false end
@@ -176,16 +172,8 @@ Section Spec.
     | ABytes s => str_match true s
     | ABool _ | AInt _ | AHalf _ => num_match a
     end.
-  Definition atom_raises (a : atom) : bool :=
-    match a with
-    | ANone => false
-    | AStr _ | ABytes _ => false
-    | ABool _ | AInt _ | AHalf _ => num_raises
-    end.
   Definition leaf_match (v : value) : bool :=
     match v with VAtom a => atom_match a | _ => false end.
-  Definition leaf_raises (v : value) : bool :=
-    match v with VAtom a => atom_raises a | _ => false end.
   (* "v matches the item": by its comparer, or - for an item of a list / tuple / set -
      by equality with the item (the only way a container is ever matched: K16h) *)
   Definition match_at (seq_item : bool) (v : value) : bool :=
@@ -246,12 +234,6 @@ Section Spec.
                       | Some _ => vis_doc [] obj (fst pv) && path_match (fst pv)
                       | None => false
                       end) (locations obj []).
-
-  (* the constructor raises TypeError: some number that the search enters, when the item is
-     a bytes pattern and strict_checking is off *)
-  Definition raises_spec (obj : value) : bool :=
-    negb item_excl &&
-    existsb (fun pv => vis true [] obj (fst pv) && leaf_raises (snd pv)) (locations obj []).
 
   (* guards under which the two readings of exclusion coincide *)
   Definition k16_guard (obj : value) : bool :=
